@@ -183,6 +183,18 @@ def r4(rr, repo):
                     fixed = '[:len(' in counts and '+ 1]' in counts
                     ext = [c for c in p.events if c.kind == 'call' and c.term.endswith('.extend') and '+ 1 - len(' in (c.args[0] if c.args else '')]
                     rr.ob('mismatched histogram: counts are truncated or zero-padded to len(bounds) + 1', fixed or bool(ext), mod, e.node, witness=p.pc_text(e.pc_len)[-300:], key=f'hist-fix|trunc={fixed}|ext={bool(ext)}')
+                    # truncating only repairs "too many", padding only "too few": the branch must be chosen by comparing with exactly len(bounds) + 1
+                    rel = [(k, v) for k, v in pc if k.startswith('ord(') and 'bucket_counts' in k and 'explicit_bounds' in k]
+                    if rel:
+                        k_, v_ = rel[-1]
+                        inner = k_[4:-1]
+                        exact = '+ 1' in inner and '- 1' not in inner and '+ 2' not in inner
+                        counts_first = inner.replace(' ', '').startswith('len(bucket_counts)') or inner.replace(' ', '').startswith('len([int(count)')
+                        more = (v_ == '>') if counts_first else (v_ == '<')
+                        rr.ob('truncation is chosen exactly for "more counts than len(bounds) + 1", zero-padding for "fewer"', exact and ((fixed and more) or (bool(ext) and not fixed and not more)), mod, e.node,
+                              witness=f'{k_[:120]} {v_}; truncated={fixed} padded={bool(ext)}', key=f'hist-fix-branch|{"trunc" if fixed else "pad"}')
+                    else:
+                        rr.unresolved('mismatched histogram: the choice between truncating and padding is not an order comparison of the two lengths', mod, e.node, witness=p.pc_text(e.pc_len)[-200:], key='hist-fix-branch')
                 elif not mism:
                     rr.violated('histogram stored without comparing len(counts) with len(bounds) + 1', mod, e.node, witness=p.pc_text(e.pc_len)[-300:], key='hist-nocheck')
                 num = lambda x, f: x is not None and (re.match(rf'^\[{f}\(\w+\) for ', U(x)) is not None or U(x).startswith(f'{f}(') or re.match(rf'^{f}\(.*\) if .* else \d', U(x)) is not None)
